@@ -167,6 +167,7 @@ func VerifC02_UnzipStaysInside() {
 		maxLen = 4
 	}
 	var entries []vEntry
+	var victims []string
 	nested := verif.Bool("nested")
 	if nested {
 		maxLen = 2 // the product with the nested archive's two names stays within the path budget
@@ -180,6 +181,8 @@ func VerifC02_UnzipStaysInside() {
 		// the nested archive's own name matters too: its stem names the nested destination
 		nestedName := vNameFromAlphabet("nz", 2+verif.Tier(), alphabet) + ".zip"
 		verif.Assume(nestedName != first)
+		// what the raw entry name spells when taken as a path of its own, from the root or from the working directory
+		victims = []string{filepath.Join("/", nestedName), filepath.Clean(nestedName)}
 		entries = append(entries, vEntry{name: nestedName, content: vBuildZip([]vEntry{{name: inner, content: []byte("y"), declared: -1}}), declared: -1})
 	} else if verif.Bool("second") {
 		second := vNameFromAlphabet("n2", 2, alphabet)
@@ -193,9 +196,16 @@ func VerifC02_UnzipStaysInside() {
 	verif.Assume(fs.WriteFile("/out/keep", []byte("k"), 0o644) == nil) // precondition of this harness ("setup"), not a clause of the property
 	// a sibling whose name has the destination's name as a prefix
 	verif.Assume(fs.MkDir("/out/d2") == nil && fs.WriteFile("/out/d2/keep", []byte("k2"), 0o644) == nil) // precondition of this harness ("setup"), not a clause of the property
+	const dest = "/out/d"
+	// something to lose at the place the raw name of the nested archive points to (outside the destination)
+	var planted []string
+	for _, v := range victims {
+		if !vPathInside(dest, v) && v != "/src/a.zip" && afero.WriteFile(rec.inner, v, []byte("v"), 0o644) == nil {
+			planted = append(planted, v)
+		}
+	}
 	before := vSnapshot(rec.inner, "/out")
 	rec.reset()
-	const dest = "/out/d"
 	limits := NoLimits()
 	if nested {
 		limits = DefaultLimits()
@@ -220,6 +230,10 @@ func VerifC02_UnzipStaysInside() {
 		}
 	}
 	verif.Assert("outside_untouched", vSameTree(before, outside))
+	for _, v := range planted {
+		content, rerr := afero.ReadFile(rec.inner, v)
+		verif.Assert("outside_untouched", rerr == nil && string(content) == "v")
+	}
 	verif.Observe("err", err != nil)
 	if err != nil {
 		verif.Reach("rejected")
